@@ -27,14 +27,14 @@ type Event struct {
 	Val   int              `json:"val"`
 	Names []string         `json:"names"`
 	Vals  [][2]interface{} `json:"vals"`
-	Log   [][2]int         `json:"log"`
+	Log   [][3]int         `json:"log"`
 	Refs  [][2]interface{} `json:"refs"`
 	Logs  [][2]interface{} `json:"logs"`
 	Err   string           `json:"err"`
 }
 
 func newEvent(op string) *Event {
-	return &Event{Op: op, Ps: []string{}, Nps: []string{}, Names: []string{}, Vals: [][2]interface{}{}, Log: [][2]int{}, Refs: [][2]interface{}{}, Logs: [][2]interface{}{}}
+	return &Event{Op: op, Ps: []string{}, Nps: []string{}, Names: []string{}, Vals: [][2]interface{}{}, Log: [][3]int{}, Refs: [][2]interface{}{}, Logs: [][2]interface{}{}}
 }
 
 var recNames = []string{
